@@ -307,6 +307,10 @@ def follow_collection(fn, node, pm, chain):
                 return Consumer("unclassified", "`%s` with a key that may tie: ties keep hash order" % par["name"], par, chain)
             if par["name"] in ("len", "is_empty", "contains"):
                 return Consumer("ok", "only `%s` of the sequence is used" % par["name"], par, chain)
+            if par["name"] == "next" and not par["args"]:
+                nm = _seeds_total_incumbent(fn, par, pm)
+                if nm:
+                    return Consumer("ok", "the first element only seeds an incumbent that is replaced under the total predicate `%s`" % nm, par, chain)
             return Consumer("order", "sequence in hash order is consumed by `%s`" % par["name"], par, chain)
         if k in ("Ret", "Closure"):
             return Consumer("derived", "sequence in iteration order is returned", par, chain)
@@ -320,6 +324,45 @@ def follow_collection(fn, node, pm, chain):
         if k in ("Tup", "Struct", "Array"):
             return Consumer("derived", "sequence in iteration order is stored in the result", par, chain)
         return Consumer("unclassified", "sequence flows into `%s`" % k, par, chain)
+
+
+def _seeds_total_incumbent(fn, nxt, pm):
+    """`let mut best = it.next().unwrap(); for c in it { if prefers(best, c) .. { best = c } }`: which element comes first
+    does not matter when every replacement of `best` is governed by a predicate that decides every pair (value, then key)"""
+    cur = nxt
+    while True:
+        par = pm.get(id(cur))
+        if par is None:
+            return None
+        if par.get("k") == "MethodCall" and par["recv"] is cur and par["name"] in ("unwrap", "expect", "cloned", "copied"):
+            cur = par
+            continue
+        if par.get("k") in ("Ref",):
+            cur = par
+            continue
+        break
+    if par.get("k") != "LetStmt" or par["pat"].get("k") != "Bind":
+        return None
+    lid = par["pat"]["local"]
+    assigns = [y for y in walk(fn["body"]) if y.get("k") == "Assign" and peel_refs(y["l"]).get("k") == "Path" and peel_refs(y["l"]).get("local") == lid]
+    if not assigns:
+        return None
+    name = None
+    for a in assigns:
+        loop = None
+        q = pm.get(id(a))
+        while q is not None:
+            if q.get("k") == "Loop":
+                loop = q
+                break
+            q = pm.get(id(q))
+        if loop is None:
+            return None
+        nm = _total_predicate_near(fn, a, loop["body"])
+        if not nm:
+            return None
+        name = nm
+    return name
 
 
 def follow_binding(fn, let, pm, chain):
